@@ -83,6 +83,20 @@ def c12(work, tier, seed):
                             peer, xff = addrs[len(scripts) % len(addrs)]
                             scripts.append({"id": "cn%05d" % len(scripts), "kind": "connect", "cfg": cfg, "session": session, "param": param, "user": user, "peerIP": peer, "xff": xff,
                                             "replay": session == "authed" and sel != "signed"})
+    # sessions that are not logged in are exercised right after logged-in ones were served on the same gateway (what a
+    # request is answered depends on its own session only): interleave them per configuration
+    bycfg = {}
+    for sc in scripts:
+        bycfg.setdefault(json.dumps(sc["cfg"], sort_keys=True), []).append(sc)
+    scripts = []
+    for k in bycfg:
+        au = [x for x in bycfg[k] if x["session"] == "authed"]
+        no = [x for x in bycfg[k] if x["session"] != "authed"]
+        while au or no:
+            if au:
+                scripts.append(au.pop(0))
+            if no:
+                scripts.append(no.pop(0))
     # several logged-in sessions of different users downloading at the same time (with and without an administrator's
     # template file): every file carries its own session's user, host, address and access token
     for sel in ("unsigned", "any"):
